@@ -265,7 +265,8 @@ def rule_result_slots(ctx, rid):
         if not g.module.name.startswith("uberjob._execution"):
             continue
         for node in g.own_nodes():
-            tgs = node.targets if isinstance(node, ast.Assign) else [node.target] if isinstance(node, ast.AugAssign) else []
+            tgs = node.targets if isinstance(node, ast.Assign) else [node.target] if isinstance(node, (ast.AugAssign, ast.AnnAssign)) else []
+            tgs = [x for t in tgs for x in (t.elts if isinstance(t, (ast.Tuple, ast.List)) else [t])]
             for t in tgs:
                 if isinstance(t, ast.Attribute) and t.attr == "value":
                     if g.name == "__init__" and g.pos_params and is_name(t.value, g.pos_params[0]):
@@ -275,7 +276,7 @@ def rule_result_slots(ctx, rid):
                         ctx.ob(rid, f"{g.short}/result-store", True, loc(g, node), "the call's own result slot (a Slot by the two rules above)", norm(node)[:80])
                         continue
                     os_ = m.origins_of(g, t.value)
-                    ok = bool(os_) and all((o[0] == "inst" and o[1] is slot) or o[0] == "const" for o in os_)
+                    ok = bool(os_) and all((o[0] == "inst" and slot in o[1].repo_mro()) or o[0] == "const" for o in os_)
                     ctx.ob(rid, f"{g.short}/value-store", ok, loc(g, node),
                            "`.value` stored on a Slot" if ok else
                            f"`{norm(t)}` may be a node of the plan (literal nodes are their own slots and are shared with the caller's plan): "
